@@ -108,3 +108,10 @@ CHECKS["C11"] = dict(
  text="All import DAGs over up to 4 (quick) / 5 (thorough) modules with every module reachable from the entry (1, 1, 3, 21, 315 graphs), per edge: import form {import m, import a,b from m, the latter also importing the mutable variable}, path spelling {m, m.ms, ./m}, placement of the import {before, between, after} the importer's side-effecting statements; all combinations for n <= 2 and <= 2 deviating edges for n = 3 (quick; all combinations for n <= 3 thorough), <= 1 / 2 deviating edges for n = 4, n = 5 thorough; variants with leaf modules in a sub-directory; six negative cases x three spellings (non-exported name through the module / by name, assignment to exported and const members, rebinding the module, unknown member). Each module prints init / mid / done lines, exports a counter with bump/peek closures, a list and a const; importers bump, peek, push and print. Every project is executed by `run` and by `compile`+`execute`; the reference loader model prescribes the exact trace (each init once, in import order, shared state).",
  note="Modules in a sub-directory are leaves. The `..` path component never parses (ordered choice in the grammar) and is not part of the alphabet.",
  design_ref="DESIGN.md section 4, C11")
+
+CHECKS["C14"] = dict(
+ category="exploration",
+ technique="bounded exhaustive enumeration of the method x receiver x argument matrix, every cell executed on the real interpreter against a per-method reference implementation",
+ text="Every string method (len, character index, substring, contains, index_of, reverse, insert, replace, delete, split, chars, parse_int / _radix, parse_bigint / _radix, parse_float, parse_bool, parse_byte, * repetition, + concatenation) x 25 receivers (empty, length 1, ASCII and multi-byte text, blanks, sign / digit / 0x / 0b / hex / exponent forms, extreme decimal strings) x byte offsets {-1, 0, 1, 2, len-1, len, len+1} in all pairs, 7 patterns, radices {1, 2, 10, 16, 36, 37}; every number method (to_int, to_bigint, to_byte, to_float, abs, pow, powf, sqrt, floor, ceil, round, ipart, fpart, to_str, to_ascii) x 12-22 boundary values of each kind x exponents {-1, 0, 1, 2, 31, 40, 127} and {0.5, 2.0, -1.0, 0.0}. In the domain the exact value with the declared kind (hook H2) is required; outside the domain the program must stop with a failure.",
+ note="Offsets are UTF-8 byte offsets (s[i] is by character), as the repository's tests document; conversions are in-domain iff the exact truncated value is representable; pow/powf compared to 1e-13 relative (not correctly-rounded operations); IEEE inf / NaN are defined float results.",
+ design_ref="DESIGN.md section 4, C14")
